@@ -5,6 +5,7 @@ import DtailModel.Lemmas.Command
 import DtailModel.Lemmas.GenOptions
 import DtailModel.Lemmas.OptionOrder
 import DtailModel.Lemmas.GenRegex
+set_option autoImplicit false
 namespace Dtail.C12
 open Dtail
 
